@@ -106,6 +106,7 @@ func genericPack(c *Ctx) {
 	ruleWithFlagNoop(c, "G-WITH-FLAG-NOOP", pkgs, 0)
 	ruleTwinParam(c, "G-TWIN-PARAM-UNUSED", pkgs)
 	ruleAnticipatory(c, "G-", pkgs)
+	ruleDerivedKeyStores(c, "G-DERIVED-KEY-STORE", pkgs)
 	if c.Prop != "C15" { // C15 runs R-DEFER over the whole module
 		c.Rule("G-DEFER-KEEPS-ERR", "a deferred assignment to a named error result joins, wraps or is guarded by the current value", 0)
 		ruleDefer(c, "G-DEFER-KEEPS-ERR", pkgs)
